@@ -498,7 +498,22 @@ fn record_num(path: &str, seed: u64, n: usize) {
         let end_pos = if rng.below(20) == 0 { start.position } else { pos(&mut rng) };
         let end = State::new_raw(end_pos, speed(&mut rng), if rng.below(4) == 0 { rng.float(-3, 3) } else { 0.0 });
         let mk = |s: State, e: State| catch(move || MotionProfile::new(s, e, Quantity::new(vmax, MILLIMETER_PER_SECOND), Quantity::new(amax, MILLIMETER_PER_SECOND_SQUARED)));
-        let p = match mk(start, end) { Ok(p) => p, Err(_) => continue };
+        let p = match mk(start, end) {
+            Ok(p) => p,
+            Err(_) => {
+                // C07: a move whose displacement comfortably exceeds its acceleration plus deceleration distance, with start and end speeds
+                // inside the limit, is always accepted ("comfortably": by a factor of two here, computed in f64)
+                let (v0, ve, vm, am) = (start.velocity as f64, end.velocity as f64, vmax as f64, amax as f64);
+                let dir = if end.position < start.position { -1.0 } else { 1.0 };
+                let d_acc = ((vm * vm - v0 * v0) / (2.0 * am)).abs() + if v0 * dir < 0.0 { v0 * v0 / am } else { 0.0 };
+                let d_dec = ((vm * vm - ve * ve) / (2.0 * am)).abs() + if ve * dir < 0.0 { ve * ve / am } else { 0.0 };
+                let disp = (end.position as f64 - start.position as f64).abs();
+                if v0.abs() <= vm && ve.abs() <= vm && disp > 2.0 * (d_acc + d_dec) + 1e-3 {
+                    writeln!(f, "{}", json!({"k": "refused", "disp": disp, "needed": d_acc + d_dec, "vmax": vm, "amax": am, "v0": v0, "ve": ve})).unwrap();
+                }
+                continue;
+            }
+        };
         let zerodisp = end.position == start.position;
         let np = mk(-start, -end);
         if np.is_err() && !zerodisp {
@@ -619,6 +634,8 @@ fn main() {
     // the tick must be an even number of nanoseconds (the code halves t1 in integer nanoseconds)
     let mut concs = vec![C { tick_pow2: 0, scale_pow2: 0 }, C { tick_pow2: -2, scale_pow2: 3 }, C { tick_pow2: 3, scale_pow2: -2 }, C { tick_pow2: -7, scale_pow2: 6 }];
     concs.push(C { tick_pow2: rng.range(-8, 6) as i32, scale_pow2: rng.range(-6, 10) as i32 });
+    // tiny values (around 1e-9): a non-zero end velocity or acceleration is non-zero however small (exact: powers of two)
+    concs.push(C { tick_pow2: 0, scale_pow2: -30 });
     let mut rep = Report::new();
     for (ln, l) in lines.iter().enumerate() {
         if let Some(o) = only {
